@@ -4,7 +4,8 @@
    constructed tree's children are ordered and non-overlapping in its fresh store. The re-parse half of the
    property needs the real lexer/parser (an oracle): decided by the monitor on every run (C15_partial). *)
 From AB Require Import Tree TreeDefs TreeProofs TreeProofs2 TreeProofs3 TreeProofs4 TreeWF TreeWFProofs TreeRun TreeFacts Construct ConstructProofs ConstructWF ConstructFacts.
-From AB Require Import Desc Generated GeneratedWf DescProofs.
+From AB Require Import Desc Generated GeneratedWf DescProofs ConstructFull.
+From AB Require TreeEdit TreeEditProofs4.
 From Coq Require Import ZArith.
 
 Theorem C15_generated_classes_wf : forall c, In c classes -> wf_desc c = true.
@@ -68,6 +69,47 @@ Theorem C15_constructed_wf_partial : forall cs new mid, classes_ok cs -> forall 
   NoDup (ids store) -> node_toks n = store ->
   WF cs n.
 Proof. exact constructed_wf. Qed.
+
+(* ---- the full statement (ConstructFull.v): both run-level hypotheses are discharged from the construction itself.
+   edges_ok c (decidable, on the class descriptor; true of every generated class: C15_generated_edges_ok by vm_compute
+   over the re-extracted classes) says the layout reaches a required or repeated field from each end passing only
+   optional fields whose separators sit on the inner side - so the node spans its whole store; args_fresh (boolean
+   twin args_fresh_b) says the argument trees' token objects are pairwise distinct and older than the ids the
+   construction mints - which is exactly when the implementation does not refuse ('The same token is listed twice') *)
+Theorem C15_generated_edges_ok : forall c, In c classes -> edges_ok c = true.
+Proof. exact generated_edges_each. Qed.
+Theorem C15_args_fresh_b_sound : forall args next, args_fresh_b args next = true -> args_fresh args next.
+Proof. exact args_fresh_b_sound. Qed.
+Theorem C15_constructed_store : forall cs new mid, classes_ok cs -> forall c args data next store n,
+  classes_anchored cs -> find_class cs (c_name c) = Some c -> wf_desc c = true -> NoDup (names c) ->
+  edges_ok c = true ->
+  args_all args (arg_good cs) -> args_fresh args next ->
+  construct cs new mid c args data next = Some (store, n) ->
+  NoDup (ids store) /\ node_toks n = store
+  /\ exists hi, forall t, In t store -> (next <= k_id t < hi)%Z \/ In t (args_toks args).
+Proof. exact constructed_store_facts. Qed.
+Theorem C15_constructed_wf : forall cs new mid, classes_ok cs -> forall c args data next store n,
+  classes_anchored cs -> find_class cs (c_name c) = Some c -> wf_desc c = true -> NoDup (names c) ->
+  edges_ok c = true ->
+  args_all args (arg_good cs) -> args_fresh args next ->
+  construct cs new mid c args data next = Some (store, n) ->
+  WF cs n /\ whole_store n store.
+Proof. exact constructed_wf_full. Qed.
+(* every generated class, every argument combination (every subset of optional arguments, every list length) *)
+Theorem C15_constructed_wf_generated : forall c args new mid data next store n,
+  In c classes -> find_class all_classes (c_name c) = Some c ->
+  args_all args (arg_good all_classes) -> args_fresh args next ->
+  construct all_classes new mid c args data next = Some (store, n) ->
+  WF all_classes n /\ whole_store n store.
+Proof. exact constructed_wf_generated. Qed.
+Example C15_constructed_full_hyps :
+  match ex_construct with
+  | Some (store, n) =>
+    WF all_classes n /\ whole_store n store /\ TreeEdit.HWF all_classes n /\ TreeEditProofs4.donor all_classes n
+    /\ length store = 23%nat /\ args_fresh_b ex_args 1000 = true
+  | None => False
+  end.
+Proof. exact ex_construct_full. Qed.
 
 Example C15_constructed_hyps :
   find_class all_classes (c_name c_Open) = Some c_Open /\ wf_desc c_Open = true
